@@ -105,6 +105,12 @@ def make_items(cx, spec, nprog, nenv, streams=('corpus', 'fragment', 'shapes')):
         for i in (idxs[:72] if cx.quick() else idxs):
             src, tags = gen.branchcall(cx.seed, i)
             items.append({'name': f'branchcall/{cx.seed}/{i}', 'src': src, 'nenv': max(30, nenv // 3), 'seed': cx.seed, 'stream': 'branchcall', 'tags': tags})
+    if 'edgeroles' in streams:
+        for i in range(gen.N_EDGEROLES):
+            src, tags = gen.edgeroles(cx.seed, i)
+            items.append({'name': f'edgeroles/{cx.seed}/{i}', 'src': src, 'nenv': max(30, nenv // 3), 'seed': cx.seed, 'stream': 'edgeroles', 'tags': tags,
+                          # the exhaustive region enumeration (oracle.exact_envs) varies size, index and fee only
+                          'exact': (spec.get('exact', False) if not tags and not any(f in src for f in ('RekeyTo', 'CloseRemainderTo', 'OnCompletion', 'Sender')) else False)})
     if 'lookalike' in streams:
         rng = random.Random(f"lookalike/{cx.seed}")
         idxs = list(range(gen.N_LOOKALIKE)); rng.shuffle(idxs)
@@ -200,7 +206,7 @@ def semantic_check(pid):
         if replay is not None:
             return do_replay(cx, pid, spec, replay)
         nprog, nenv = volumes(cx, 90, 100)
-        streams = ('corpus', 'fragment', 'shapes', 'direct', 'callfam') + (('branchcall', 'lookalike') if pid in ('C01', 'C03', 'C06', 'C07', 'C08', 'C09', 'C10') else ()) + (('twofield',) if pid in ('C01', 'C03', 'C07', 'C08') else ()) + (('layout',) if pid in ('C04', 'C05') else ()) + (('addrfam',) if pid in ('C01', 'C08') else ()) + (('straight',) if pid == 'C11' else ())
+        streams = ('corpus', 'fragment', 'shapes', 'direct', 'callfam') + (('branchcall', 'lookalike', 'edgeroles') if pid in ('C01', 'C03', 'C06', 'C07', 'C08', 'C09', 'C10') else ()) + (('twofield',) if pid in ('C01', 'C03', 'C07', 'C08') else ()) + (('layout',) if pid in ('C04', 'C05') else ()) + (('addrfam',) if pid in ('C01', 'C08') else ()) + (('straight',) if pid == 'C11' else ())
         items = make_items(cx, spec, nprog, nenv, streams)
         results = engine.run_items(items)
         src_of = {it['name']: it['src'] for it in items}
@@ -299,7 +305,7 @@ for _pid in SEM:
 def c12_check(cx, replay=None):
     spec = dict(viol={'C12'}, phases=set(), ctx_fields=None, ctx_kinds=None)
     nprog, nenv = volumes(cx, 70, 60)
-    items = [it for it in make_items(cx, spec, nprog, nenv, ('corpus', 'fragment', 'callfam')) if it['stream'] != 'saved']
+    items = [it for it in make_items(cx, spec, nprog, nenv, ('corpus', 'fragment', 'callfam', 'edgeroles')) if it['stream'] != 'saved']
     results = engine.run_items_with(engine.process_c12, items)
     src_of = {it['name']: it['src'] for it in items}
     diffs, npaths = [], 0
